@@ -54,6 +54,7 @@ func FuzzRuleSetBytes(f *testing.F) {
 	f.Add([]byte(seedRuleSetYAML), false, false)
 	f.Add([]byte(seedRuleSetYAML), false, true)
 	f.Add([]byte(seedRuleSetJSON), true, false)
+	f.Add([]byte(`{"version":"1alpha4","rules":[{"id":"e","match":{"routes":[{"path":"/a/\\*x/\\:y/b\\c"},{"path":"/a/:x/**"}]},"execute":[{"authenticator":"anon"}]}]}`), true, false)
 	f.Add([]byte(`{"version":"1alpha4","rules":[{"id":"x","match":{"routes":[{"path":"/a"}]},"execute":[]}]}`), true, false)
 	f.Add([]byte("rules: [ {id: a, match: {routes: [{path: /:a, path_params: [{name: a, type: regex, value: '('}]}]}, execute: [{authenticator: anon}]} ]\nversion: 1alpha4\n"), false, false)
 
